@@ -269,6 +269,9 @@ def f4_obligations(P, E, out):
 # F5: environment-sensitive scripts executed end to end (CPython vs firmware mock): a value the transpiler derives from its
 #     constant environment (folded lengths, global initialisers, glyph rows) must be the value the program has at that point
 F5_SCRIPTS = {
+    "helper-binds-a-module-string-only-in-branches": "msg = 'abc'\ndef show(v):\n    if v > 1:\n        msg = 'hello'\n    else:\n        msg = 'no'\n    mon.write(len(msg))\n    return len(msg) + 1\nmon.write(show(3))\nmon.write(show(0))\nmon.write(len(msg))\nmon.write(msg)\n",
+    "helper-binds-a-module-number-only-in-a-loop": "n = 3\ndef last(k):\n    for i in range(k):\n        n = i * 10\n    return n + 1\nmon.write(last(4))\nmon.write(n + 1)\ndef deep(k):\n    while k > 0:\n        if k == 1:\n            n = 77\n        k = k - 1\n    return n * 2\nmon.write(deep(2))\nmon.write(n * 2)\n",
+    "list-remove-drops-only-the-first-occurrence": "from Reduino.Actuators import Led\nled = Led(9)\nseq = [1, 0, 1, 0]\nseq.remove(1)\nmon.write(len(seq))\nled.flash_pattern(seq, 7)\nmon.write(seq[0] + seq[1] * 2 + seq[2] * 4)\n",
     "swap-then-len": "a = 'xx'\nb = 'yyyy'\na, b = b, a\nmon.write(len(a))\nmon.write(len(b))\n",
     "rotation-then-len": "a = 'x'\nb = 'yy'\nc = 'zzz'\na, b, c = c, a, b\nmon.write(len(a))\nmon.write(len(b))\nmon.write(len(c))\n",
     "swap-numbers-then-derived": "a = 2\nb = 4\na, b = b, a\nc = a * 10 + b\nmon.write(c)\nmon.write(a)\nmon.write(b)\n",
